@@ -8,7 +8,8 @@ Run: lake env lean --run FaxVerif/Cpp/Driver.lean
 -/
 import FaxVerif.Cpp.Json
 import FaxVerif.Cpp.Check
-open Lean FaxVerif.Cpp FaxVerif.Linq
+import FaxVerif.Gen.Render
+open Lean FaxVerif.Cpp FaxVerif.Linq FaxVerif.Gen
 
 def rowsJson (rows : List (List (Val Float))) : Json :=
   Json.mkObj [
@@ -36,13 +37,34 @@ def handleRun (j : Json) : Except String Json := do
   pure (Json.mkObj [("exec", Json.arr execs.toArray), ("denote", dens), ("job", job),
     ("wf", Json.bool (WellFormed P)), ("eventlocal", Json.bool (EventLocal P)), ("unique", Json.bool (UniqueNames P))])
 
+/-- {"op":"compile","backend":b,"colls":[{"name","type","elem"}],"fq":FQ,"events":[..]}
+    -> the model's package as text, plus the model's own exec / denote(toQuery fq) on the events -/
+def handleCompile (j : Json) : Except String Json := do
+  let colls ← (← jarr j "colls").mapM fun c => do pure ((← jstr c "name"), (← jstr c "type"), (← jstr c "elem"))
+  let B := mkBackend (← jstr j "backend") colls
+  let fq ← decFQ (← j.getObjVal? "fq")
+  let P := compile B nmLocal nmCol fq
+  let evs ← (← jarr j "events").mapM decEvent
+  let cts := colls.map fun c => (c.1, c.2.1)
+  let jl (l : List String) := Json.arr (l.map Json.str).toArray
+  let execs := evs.map fun ev => resJson ((runEvent P floatNum (classInit P.classVars) ev).map (·.1))
+  let dens := evs.map fun ev => resJson (denoteRows { N := floatNum, ev := ev, collTypes := cts } fq.toQuery)
+  pure (Json.mkObj [
+    ("body", jl (renderS P.body)),
+    ("class_decl", jl (P.classVars.map fun p => s!"{p.1} {p.2};")),
+    ("branches", Json.arr (P.branches.map fun p => Json.mkObj [("name", p.1), ("var", p.2)]).toArray),
+    ("tokens", Json.arr (P.tokens.map fun t => Json.mkObj [("token", t.1), ("type", t.2.1), ("bank", t.2.2)]).toArray),
+    ("tree", P.tree),
+    ("exec", Json.arr execs.toArray), ("denote", Json.arr dens.toArray),
+    ("wf", Json.bool (WellFormed P)), ("eventlocal", Json.bool (EventLocal P))])
+
 def handle (line : String) : String :=
   match Json.parse line with
   | .error e => (Json.mkObj [("bad", e)]).compress
   | .ok j =>
     let r : Except String Json := do
       let op ← jstr j "op"
-      if op == "run" then handleRun j else throw s!"unknown op {op}"
+      if op == "run" then handleRun j else if op == "compile" then handleCompile j else throw s!"unknown op {op}"
     match r with
     | .ok j => j.compress
     | .error e => (Json.mkObj [("bad", e)]).compress
